@@ -85,10 +85,10 @@ namespace via
         switch (state_)
         {
         case Header::NAME:
-          // a field name is a token, see RFC 7230 section 3.2.6
+          // a field name is a (non-empty) token, see RFC 7230 section 3.2.6
           if (is_token(c) && (static_cast<unsigned char>(c) < 0x80))
             name_.push_back(static_cast<char>(std::tolower(c)));
-          else if (':' == c)
+          else if ((':' == c) && !name_.empty())
             state_ = Header::VALUE_LS;
           else
             return false;
